@@ -12,13 +12,28 @@
       authenticated_developers_only and authenticated_developers_or_auth_only are built on it and test is_developer (or username ==
       'auth'); billing_project_users_only is built on it, tests membership of the batch's billing project for the path's batch id and
       raises before calling the handler; pass-through decorators do not skip the inner handler's wrapper
-Not decided: correctness of the auth service, session handling.
+  R6  listing queries: every condition ANDed onto the batch / billing-project scope stays one conjunct
+  R7  sub-resource selectors: the membership / owner test covers the path's batch id only, so every further path component of a
+      {batch_id} route is either converted by int() or - as a string - confined, at every point where it selects what is fetched
+      (worker URL, object-store key, SQL text; followed through helpers by parameter), to a language without '/': the language
+      admitted by the conditions that dominate the use is computed as a regular language and intersected with .*'/'.*
+  R8  membership has one meaning: the `.../users/{user}/remove` routes reach a write of billing_project_users keyed by the path's
+      (billing project, user); when that write keeps the row (UPDATE ... SET c = v) the filter of EVERY reader of the table
+      (_user_can_access behind billing_project_users_only, batch creation, the listings, the billing-project views) must reject a row
+      with c = v (three-valued may-analysis of its conjuncts); and no row state the front end can write (literal column values of its
+      INSERT / UPDATE statements) is rejected by one reader and admitted by another
+  R9  per-query batch filters: every SELECT / UPDATE / DELETE scope an embedded statement of a {batch_id} route runs over a table
+      keyed by a batch id ties that key - by a WHERE conjunct, the ON clause that brings the table in, or transitively through join
+      equalities - to a bound parameter (union-find over the equality conjuncts; an outer join's ON clause restricts only the joined
+      table); where the bound value traces back to path components it must be {batch_id}
+Not decided: correctness of the auth service, session handling; SQL text assembled by the query parsers (R6 covers its scope conjunct).
 """
 from __future__ import annotations
 
 import ast
 from typing import Dict, List, Optional, Set, Tuple
 
+from engines import c14facts as cf
 from engines import pyfacts as pf
 from engines import sqlfront as sf
 from engines import sqlrules as sr
@@ -28,10 +43,15 @@ from engines.sqlast import N, text
 META = dict(
     category='other',
     text='Every @routes registration of the batch front end is classified by its resolved decorator chain against the statement\'s own partition of endpoints; '
-         'owner-only mutations are checked by an inter-procedural must-pass-through (owner filter dominates every write); the wrappers\' own bodies are checked.',
-    note='Helpers are resolved by name inside front_end.py (depth 4). The auth service and aiohttp routing are trusted. A route added with a new decorator the checker '
-         'cannot classify makes the check decline (exit 2).',
-    technique='static analysis: decorator-chain resolution over all routes + inter-procedural dominance (must-pass-through) of an owner filter over writes',
+         'owner-only mutations are checked by an inter-procedural must-pass-through (owner filter dominates every write and every normal response); the wrappers\' own bodies are checked; '
+         'string path components of the per-batch routes are followed to the lookups they select and the regular language admitted by the dominating conditions is intersected with .*/.*; '
+         'the readers of billing_project_users are checked against the revocation write (three-valued may-analysis) and against each other; every embedded statement of a per-batch route '
+         'is checked to be tied to the request batch (union-find over equality conjuncts).',
+    note='Helpers are resolved by name inside front_end.py (depth 4-6). The auth service and aiohttp routing are trusted (a path component is matched per segment and percent-decoded afterwards). '
+         'A route added with a new decorator the checker cannot classify, a string path component handed to an unclassified library call, or a condition on it that is not a recognised string '
+         'predicate makes the check decline (exit 2). SQL text assembled by the query parsers is covered by R6 only.',
+    technique='static analysis: decorator-chain resolution over all routes + inter-procedural dominance (must-pass-through) of an owner filter + taint flow of path components with regular-language '
+              'guards (relang/strpred) + SQL conjunct analysis (may-analysis over NULL/boolean states, union-find of batch-key equalities)',
     design_ref='DESIGN.md §3 C14',
 )
 
@@ -43,6 +63,48 @@ LEVELS = {'auth.authenticated_users_only': 'user', 'auth.authenticated_developer
 # routes served by imported handlers that are not part of the batch API (one line of reason each)
 EXTERNAL_HANDLERS = {('GET', '/metrics', 'server_stats')}  # prometheus_async process metrics: no batch data, not an API endpoint of the statement
 ADMIN_PREFIXES = ('/billing_projects/', '/api/v1alpha/billing_projects/', '/billing_limits/', '/api/v1alpha/billing_limits/')
+
+
+ROUTE_REGEX: Dict[Tuple[str, str], Dict[str, str]] = {}
+
+
+def split_route(path: str) -> Tuple[str, Dict[str, str]]:
+    """aiohttp dynamic segments `{name:regex}` (the regex may contain balanced braces) -> the path with plain `{name}` segments,
+    and the regex of each constrained component."""
+    out = []
+    regs: Dict[str, str] = {}
+    i = 0
+    while i < len(path):
+        c = path[i]
+        if c != '{':
+            out.append(c)
+            i += 1
+            continue
+        depth = 0
+        j = i
+        while j < len(path):
+            if path[j] == '{':
+                depth += 1
+            elif path[j] == '}':
+                depth -= 1
+                if depth == 0:
+                    break
+            j += 1
+        if j >= len(path):
+            raise AnalysisError(f'{FE}: unbalanced braces in route path {path!r}')
+        inner = path[i + 1:j]
+        name, sep, rx = inner.partition(':')
+        out.append('{' + name.strip() + '}')
+        if sep:
+            regs[name.strip()] = rx
+        i = j + 1
+    return ''.join(out), regs
+
+
+def _reg(method: str, raw_path: str) -> Tuple[str, str]:
+    npath, regs = split_route(raw_path)
+    ROUTE_REGEX[(method, npath)] = regs
+    return method, npath
 
 
 def routes_of(m: pf.Module) -> List[Tuple[pf.FuncDef, List[Tuple[str, str]], List[str]]]:
@@ -71,7 +133,7 @@ def routes_of(m: pf.Module) -> List[Tuple[pf.FuncDef, List[Tuple[str, str]], Lis
                         raise AnalysisError(f'{FE}:{fn.lineno}: route path is not a literal')
                     method = verb.upper()
                 below = tuple(n or pf.nsrc(dd) for n, dd in names[i + 1:] if not (n is not None and n.startswith('routes.')))
-                groups.setdefault(below, []).append((method, path))
+                groups.setdefault(below, []).append(_reg(method, path))
         for below, regs in groups.items():
             out.append((fn, regs, list(below)))
     # registrations outside the decorator idiom: app.router.add_<verb>(path, handler) / web.<verb>(path, handler)
@@ -97,6 +159,7 @@ def routes_of(m: pf.Module) -> List[Tuple[pf.FuncDef, List[Tuple[str, str]], Lis
         h = args[1] if len(args) > 1 else None
         if path is None or not isinstance(h, ast.Name):
             raise AnalysisError(f'{FE}:{c.lineno}: `{pf.nsrc(c)}` registers a route whose path/handler is not a literal / a plain name')
+        method, path = _reg(method, path)
         if h.id not in top:
             if path in PUBLIC or (method, path, h.id) in EXTERNAL_HANDLERS:
                 continue
@@ -126,25 +189,13 @@ class OwnerAnalysis:
         self.ctx = ctx
         self.m = m
         self.embs = sf.embedded_in(m)
+        self.names = cf.PathFlow(m)
         self.memo: Dict[int, bool] = {}
         self.has_writes_memo: Dict[int, bool] = {}
 
     def resolve(self, fn: pf.FuncDef, call: ast.Call) -> Optional[pf.FuncDef]:
-        name = pf.dotted(call.func)
-        if name is None or '.' in name:
-            return None
-        # nested def in fn or an enclosing function, else module level
-        cur: Optional[ast.AST] = fn
-        while cur is not None:
-            for n in ast.walk(cur):
-                if isinstance(n, (ast.FunctionDef, ast.AsyncFunctionDef)) and n.name == name and n is not cur:
-                    if self.m.enclosing_func(n) is cur:
-                        return n
-            cur = self.m.enclosing_func(cur)
-        for n in self.m.tree.body:
-            if isinstance(n, (ast.FunctionDef, ast.AsyncFunctionDef)) and n.name == name:
-                return n
-        return None
+        # nested def in fn or an enclosing function, else module level (indexed once per module)
+        return self.names.resolve(fn, call)
 
     def caller_user_expr(self, fn: pf.FuncDef, e: ast.expr) -> bool:
         """Does e denote the authenticated caller's username?"""
@@ -408,6 +459,258 @@ def r6_scoped_listings(ctx: Ctx) -> None:
             ctx.check(scope, 'R6', f'{rel}::{name}::scope conjunct', 'the listing has no conjunct restricting it to the requested batch / the caller\'s billing projects', m.path, fn.lineno)
 
 
+def _example(w: str) -> str:
+    return (w if w.endswith('/') else w + '/') + '../../../../../<other batch>/jobs/<job>/log/main' if '/' in w else w
+
+
+def r7_path_components(ctx: Ctx, m: pf.Module, rts) -> None:
+    """String-valued path components of the {batch_id} routes (see engines/c14facts.PathFlow)."""
+    flow = cf.PathFlow(m)
+    roots = [fn for fn, regs, _ in rts if any('{batch_id}' in p for _, p in regs)]
+    keys = set()
+    for _, regs, _ in rts:
+        for _, p in regs:
+            if '{batch_id}' in p:
+                keys |= {seg[1:-1] for seg in p.split('/') if seg.startswith('{') and seg.endswith('}')}
+    # a component constrained by the route pattern itself (`{name:regex}`): aiohttp matches the regex against the still
+    # percent-encoded segment and decodes afterwards, so the regex bounds the decoded value only when it admits no '%'
+    from engines import relang as R
+    pct = R.lang(R.seq(R.star(R.anychar()), R.lit('%'), R.star(R.anychar())), "contains '%'")
+    for k in sorted(keys):
+        langs = []
+        for (mt, p), regs in ROUTE_REGEX.items():
+            if '{batch_id}' in p and ('{' + k + '}') in p:
+                try:
+                    L = R.from_regex(regs[k], 0, 'fullmatch') if k in regs else None
+                except AnalysisError:
+                    L = None
+                if L is not None and R.shortest(L & pct) is not None:
+                    L = None
+                langs.append(L)
+        if langs and all(L is not None for L in langs):
+            u = langs[0]
+            for L in langs[1:]:
+                u = u | L
+            flow.key_lang[k] = u
+    fns = flow.reachable(roots, 5)
+    ctx.unit('functions_reachable_from_batch_routes', len(fns))
+    seen = set()
+    for f in fns:
+        for s in flow.sources(f):
+            qual = m.qualname(f)
+            if s['form'] == 'returned':
+                continue  # accounted for where the helper's result is used
+            if s['form'] == 'int':
+                cons = f"{FE}::{qual}::int(path component {s['key']!r})"
+                if cons not in seen:
+                    seen.add(cons)
+                    ctx.ok('R7', cons, 'converted by int()')
+                continue
+            ctx.need(s['key'] != '?', f'{FE}::{qual}: path component read with a computed key `{pf.nsrc(s["node"])}`')
+            raw = flow.analyse_source(f, s)
+            cons = f"{FE}::{qual}::path component {s['key']!r}"
+            if not raw.problems:
+                if cons not in seen:
+                    seen.add(cons)
+                    ctx.ok('R7', cons, {'confined by': raw.guards_seen})
+                continue
+            for p in raw.problems:
+                c2 = f"{cons} -> {p['fn']}::{p['sink']}"
+                if c2 in seen:
+                    continue
+                seen.add(c2)
+                passed = ('the conditions it has passed (' + '; '.join(f'`{x}`' for x in raw.guards_seen) + ') admit') if raw.guards_seen else 'no condition restricts it: it may be'
+                ctx.bad('R7', c2, f"the path component {{{s['key']}}} ({raw.origin}, {qual}) {p['what']} in {p['fn']} (`{p['sink']}(... {p['template'][:110]} ...)`, line {p['line']}) although {passed} "
+                        f"a value containing '/', e.g. {p['witness']!r}: the route's membership test covers only the path's batch id, so a request for a batch the caller belongs to with "
+                        f"{{{s['key']}}} = {_example(p['witness'])!r} (sent percent-encoded) re-addresses the lookup to a batch of a billing project the caller is not a member of",
+                        m.path, p['line'])
+    ctx.need(keys >= {'batch_id', 'job_id', 'container'}, f'path components of the batch routes not found ({sorted(keys)})')
+
+
+MEMBERSHIP_MODULES = ['batch/batch/front_end/query/query_v1.py', 'batch/batch/front_end/query/query_v2.py', 'batch/batch/utils.py']
+MEMBERSHIP_KEY = {'billing_project', 'user', 'user_cs'}
+
+
+def r8_membership(ctx: Ctx, m: pf.Module, rts) -> None:
+    prog = sf.load_program()
+    mem = cf.Membership(prog)
+    flow = cf.PathFlow(m)
+    removers = [(fn, regs) for fn, regs, _ in rts if any(p.endswith('/users/{user}/remove') for _, p in regs)]
+    adders = [(fn, regs) for fn, regs, _ in rts if any(p.endswith('/users/add') or p.endswith('/users/{user}/add') for _, p in regs)]
+    ctx.need(len(removers) >= 2, f'only {len(removers)} `.../users/{{user}}/remove` routes found (UI and API expected)')
+    admin_fns = flow.reachable([fn for fn, _ in removers + adders], 5)
+    admin_ids = {id(f) for f in admin_fns} - {id(fn) for fn, _ in removers + adders}
+    # ---- readers
+    rels = list(MEMBERSHIP_MODULES)
+    if ctx.tier == 'thorough':
+        for rel in pf.walk_py(['batch/batch']):
+            if rel != FE and rel not in rels and cf.TABLE in pf.load(rel).src:
+                rels.append(rel)
+    readers: List[cf.Reader] = []
+    for rel in [FE] + rels:
+        mm = m if rel == FE else pf.load(rel)
+        for r in mem.readers_in(mm):
+            if mm is m and r.fn is not None and id(r.fn) in admin_ids:
+                continue  # the look-before-write of the add / remove transaction itself
+            readers.append(r)
+    ctx.unit('membership_readers', len(readers))
+    ctx.need(len(readers) >= 7, f'only {len(readers)} readers of {cf.TABLE} found (7 confirmed by hand)')
+    ctx.need(any(r.module is m and r.qual == '_user_can_access' for r in readers), f'_user_can_access no longer reads {cf.TABLE}')
+    # ---- revocation
+    soft: List[Tuple[str, dict, Dict[str, object]]] = []
+    for fn, regs in removers:
+        fns = flow.reachable([fn], 5)
+        route = ' / '.join(f'{mt} {p}' for mt, p in regs)
+        cons = f'{FE}::{fn.name}::revokes membership'
+        ws = [w for w in mem.writes_in(m, fns) if w['verb'] in ('delete', 'update') or (w['verb'] == 'insert' and w['st'].on_dup)]
+        if not ws:
+            ctx.bad('R8', cons, f'{route} does not reach a DELETE or UPDATE of {cf.TABLE}: the user it names stays a member and keeps passing billing_project_users_only', m.path, fn.lineno)
+            continue
+        okr = True
+        for w in ws:
+            e = w['emb']
+            if w['verb'] != 'insert':
+                kb = mem.key_binding(w)
+                for role, want in (('user', 'user'), ('project', 'billing_project')):
+                    got = cf.trace_to_path_component(flow, fns, e.fn, kb[role]) if kb[role] is not None else set()
+                    # decided only when the bound value traces back to path components: anything else (a value re-read from the row
+                    # that was just locked, a missing conjunct on a single-project statement ...) is left alone
+                    if got and not any(x.startswith('?') for x in got) and got != {want}:
+                        okr = False
+                        ctx.bad('R8', f'{cons}::{role} key', f'{route}: the {w["verb"].upper()} of {cf.TABLE} in {e.qual} (line {e.lineno}) selects the row by {role} = path component '
+                                f'{sorted(got)} instead of {{{want}}}: the membership of the named user in the named project is not the one that is revoked, so the user stays a member '
+                                'and keeps passing billing_project_users_only', m.path, e.lineno)
+            if w['verb'] != 'delete':
+                soft.append((f'{e.qual} (line {e.lineno})', w, mem.set_state(w['st'])))
+        if okr:
+            ctx.ok('R8', cons, [f"{w['verb']} in {w['emb'].qual}" for w in ws])
+    # ---- every reader rejects a revoked row; no two readers disagree about a row state the front end can write
+    states: List[Tuple[str, Dict[str, object]]] = []
+    for w in mem.writes_in(m, [f for _, f in m.functions()]):
+        st = w['st']
+        state: Dict[str, object] = {}
+        if w['verb'] == 'update' or (w['verb'] == 'insert' and st.on_dup):
+            state = dict(mem.set_state(st))
+        elif w['verb'] == 'insert' and st.cols and st.rows and len(st.rows) == 1 and len(st.rows[0]) == len(st.cols):
+            for c, v in zip(st.cols, st.rows[0]):
+                if getattr(v, 'kind', None) == 'lit':
+                    state[cf._lc(c if isinstance(c, str) else c.parts[-1])] = 1 if v.value is True else 0 if v.value is False else v.value
+        state = {c: v for c, v in state.items() if c not in MEMBERSHIP_KEY and v is not cf.UNKNOWN}
+        if state and not any(state == s0 for _, s0 in states):
+            states.append((f'{w["emb"].qual} (line {w["emb"].lineno})', state))
+    cons_seen: Dict[str, int] = {}
+    for r in readers:
+        cons = f'{r.construct}::membership filter'
+        cons_seen[cons] = cons_seen.get(cons, 0) + 1
+        if cons_seen[cons] > 1:
+            cons += f' #{cons_seen[cons]}'
+        bad = False
+        for where, w, state in soft:
+            verdict, looked = mem.may_admit(r, state)
+            if verdict == 'undecided':
+                raise AnalysisError(f'{r.construct}: cannot decide whether `{"; ".join(looked)}` rejects a membership row after `{text(w["st"])[:80]}` (non-literal value)')
+            if verdict == 'admits':
+                bad = True
+                st_txt = ', '.join(f'{k} = {v if v is not cf.UNKNOWN else "<value>"}' for k, v in state.items())
+                ctx.bad('R8', cons, f'removing a user from a billing project keeps the {cf.TABLE} row and only sets {st_txt} ({where}), but the query in {r.qual} (line {r.line}) still '
+                        f'matches such a row' + (f' (its conditions on those columns, {looked}, can be true for it)' if looked else ' (it never looks at those columns)') +
+                        ': history add U to project P; remove U from P; U requests a batch of P -> ' +
+                        ('billing_project_users_only admits U (read / cancel / delete)' if r.qual == '_user_can_access' else 'U is still treated as a member here'), r.module.path, r.line)
+                break
+        if not bad:
+            for where, state in states:
+                if mem.may_admit(r, state)[0] != 'admits':
+                    continue
+                others = sorted({o.qual for o in readers if o is not r and mem.may_admit(o, state)[0] == 'rejects'})
+                if others:
+                    bad = True
+                    st_txt = ', '.join(f'{k} = {v}' for k, v in state.items())
+                    ctx.bad('R8', cons, f'a {cf.TABLE} row with {st_txt} (written by {where}) is not a membership for {others} but still matches the query in {r.qual} (line {r.line}), which '
+                            'never excludes it: the two sides disagree about who belongs to the billing project, and this one is the more permissive', r.module.path, r.line)
+                    break
+        if not bad:
+            tested = sorted({b for c in r.conjuncts for x in sf.cols_in(c) for b in [mem.bpu_col(x, r.scope_tables)] if b is not None} - MEMBERSHIP_KEY)
+            ctx.ok('R8', cons, {'state columns tested': tested, 'revocations that keep the row': [x[0] for x in soft], 'row states written': [s0 for _, s0 in states]})
+
+
+def r9_batch_scope(ctx: Ctx, m: pf.Module, rts) -> None:
+    """Per-query batch filters (engines/c14facts.BatchScope): the wrappers decide for the path's batch id; every statement the handler
+    then runs over a batch-keyed table must be confined to that batch."""
+    prog = sf.load_program()
+    bs = cf.BatchScope(prog)
+    flow = cf.PathFlow(m)
+    roots = []
+    handler_params: Dict[int, Dict[str, str]] = {}
+    for fn, regs, decos in rts:
+        if any('{batch_id}' in p for _, p in regs):
+            roots.append(fn)
+            if level_of(decos)[0] == 'member':
+                ps = [a.arg for a in fn.args.posonlyargs + fn.args.args]
+                if len(ps) >= 3:
+                    handler_params[id(fn)] = {ps[2]: 'batch_id'}
+    fns = flow.reachable(roots, 5)
+    ids = {id(f) for f in fns}
+    memo: Dict[Tuple[int, str], set] = {}
+    undecided = 0
+    seen = set()
+    for e in sf.embedded_in(m):
+        if e.fn is None or id(e.fn) not in ids or e.sql_text is None:
+            continue  # SQL built by the query parsers is returned as a string: its scope conjunct is R6's business
+        sts = e.stmts()
+        if e.parse_error is not None:
+            raise AnalysisError(f'{FE}::{e.qual}: statement (line {e.lineno}) does not parse: {e.parse_error}')
+        for st in sts:
+            for sc in bs.scopes(st):
+                r = bs.analyse(sc)
+                if not r['tables']:
+                    continue
+                if r['holes']:
+                    frags: List[N] = []
+                    try:
+                        for c in sf.conjuncts(sc.where):
+                            if c.kind == 'hole':
+                                import re as _re
+                                ix = _re.search(r'(\d+)', c.text)
+                                if ix is None or int(ix.group(1)) >= len(e.holes):
+                                    raise AnalysisError('hole')
+                                h = e.holes[int(ix.group(1))]
+                                if isinstance(h, ast.Call) and isinstance(h.func, ast.Attribute) and h.func.attr == 'join':
+                                    frags += cf.where_fragments(m, e.fn, h, 'batch_id')
+                        if getattr(sc, 'clause_holes', None):
+                            raise AnalysisError('clause hole')
+                    except AnalysisError:
+                        undecided += 1
+                        continue
+                    r = bs.analyse(sc, frags)
+                cons = f'{FE}::{e.qual}::{sc.kind.upper()} {" ".join(sorted(set(r["tables"].values())))} :: {text(sc.where)[:70] if getattr(sc, "where", None) is not None else ""}'
+                if cons in seen:
+                    continue
+                seen.add(cons)
+                if r['unscoped']:
+                    tabs = ', '.join(f'{r["tables"][a]}.{bs.keycol(r["tables"][a])}' for a in r['unscoped'])
+                    ctx.bad('R9', cons, f'the {sc.kind.upper()} in {e.qual} (line {e.lineno}), reached from a {{batch_id}} route, reads/writes {tabs} without tying it to the batch of the request '
+                            '(no `= %s` conjunct in WHERE or in the ON clause that brings the table in, and no equality with the batch key of a table that has one; a condition in the ON clause of an '
+                            'outer join does not restrict the other side): rows of batches the membership / owner test did not cover are matched, e.g. the job with the same job_id in a batch of '
+                            'another billing project', m.path, e.lineno)
+                    continue
+                # the bound value is the path's batch id (decided only when it traces back to path components)
+                wrong = None
+                params = sr.params_in_order(st)
+                elts = sr.args_tuple(e.fn, e.call.args[1] if len(e.call.args) > 1 else None)
+                if elts is not None and len(elts) == len(params):
+                    bind = {p.pos: x for p, x in zip(params, elts)}
+                    for alias, pn in r['params']:
+                        got = cf.trace_to_path_component(flow, fns, e.fn, bind[pn.pos], 6, handler_params, memo)
+                        if got and not any(x.startswith('?') for x in got) and 'batch_id' not in got:
+                            wrong = (alias, pf.nsrc(bind[pn.pos]), sorted(got))
+                if wrong is not None:
+                    ctx.bad('R9', cons, f'the {sc.kind.upper()} in {e.qual} (line {e.lineno}) binds {r["tables"][wrong[0]]}.{bs.keycol(r["tables"][wrong[0]])} to `{wrong[1]}`, which is the path '
+                            f'component {wrong[2]}, not the batch id the membership / owner test was made for', m.path, e.lineno)
+                else:
+                    ctx.ok('R9', cons, {'tables': r['tables']})
+    ctx.unit('sql_scopes_not_decided', undecided)
+
+
 def run(ctx: Ctx) -> None:
     ctx.explanation = 'Classification of all routes by resolved decorator chain against the statement\'s partition of endpoints; inter-procedural owner-filter dominance for owner-only mutations.'
     ctx.rule('R1', 'unauthenticated handlers are exactly the listed public endpoints', 8)
@@ -416,6 +719,9 @@ def run(ctx: Ctx) -> None:
     ctx.rule('R4', 'billing project / limit administration requires developer or auth service', 13)
     ctx.rule('R5', 'the authenticating wrappers block before calling the handler; pass-through decorators pass through', 9)
     ctx.rule('R6', 'listing queries: every condition ANDed onto the batch / billing-project scope is closed under AND (parenthesised or no top-level OR)', 22)
+    ctx.rule('R7', "sub-resource selectors of the {batch_id} routes: every path component is int()-converted or confined to strings without '/' wherever it selects what is fetched", 23)
+    ctx.rule('R8', 'billing-project membership has one meaning: removal revokes the row every reader counts (or every reader rejects the retained row)', 9)
+    ctx.rule('R9', 'per-query batch filters: every statement a {batch_id} route runs over a batch-keyed table is tied to the request batch (bound parameter / join on the batch key)', 33)
     m = pf.load(FE)
     rts = routes_of(m)
     ctx.unit('routes', sum(len(r) for _, r, _ in rts))
@@ -443,9 +749,16 @@ def run(ctx: Ctx) -> None:
                     ok, why = oa.protected(fn)
                     ctx.check(ok, 'R3', cons, f'{method} {path} is open to any authenticated user and reaches a database write without first establishing that the caller owns the batch: {why}',
                               m.path, fn.lineno)
-                    ctx.ok('R2', cons, f'authenticated ({lv}); owner protection decided under R3')
+                    # not membership-wrapped: the only callers the statement admits here are owners, so a normal response must
+                    # not be reachable without the owner filter either (a read-only handler has no write for R3 to look at)
+                    ctx.check(oa.always_filters(fn, 4), 'R2', cons, f'{method} {path} is open to any authenticated user (level `{lv}`, not billing_project_users_only) and some path through '
+                              f'{fn.name} reaches a normal response without an owner filter (SELECT ... WHERE user = <caller> AND id = <path batch id>, empty -> raise): a user who neither owns '
+                              'the batch nor belongs to its billing project is served', m.path, fn.lineno)
             else:
                 ctx.ok('R2', cons, f'level {lv}')
     check_forwarding(ctx, m)
     r5_wrappers(ctx, m)
     r6_scoped_listings(ctx)
+    r7_path_components(ctx, m, rts)
+    r8_membership(ctx, m, rts)
+    r9_batch_scope(ctx, m, rts)
